@@ -128,6 +128,7 @@ func init() {
 			for _, v := range []string{"base first", "base none", "retry first", "retry none"} {
 				emit("q2swap " + v)
 			}
+			emit("rccancel active")
 			emit("wlate pubrel")
 			emit("wblock close")
 			emit("wblock retry")
@@ -436,6 +437,68 @@ func init() {
 					bad("C10", "concurrent-transport-write", "%d goroutines were inside Transport.Write at the same time", n)
 				}
 				base.Close()
+			case "rccancel":
+				// the context given to ReconnectClient.Connect ends at the very moment the CONNACK has been accepted (cancelled from
+				// the ConnState callback reporting Active): whatever Connect returns, the connection loop must go on watching the
+				// connection, and a later Disconnect must complete (C11; C09: the loop survives)
+				tr := newRecTransport()
+				fed := false
+				tr.onWrite = func(p []byte) {
+					tr.mu.Lock()
+					first := !fed && len(p) > 0 && p[0] == 0x10
+					if first {
+						fed = true
+					}
+					tr.mu.Unlock()
+					if first {
+						tr.feed(specConnAck(false, 0))
+					}
+				}
+				cctx, ccancel := context.WithCancel(context.Background())
+				defer ccancel()
+				dials := 0
+				var dmu sync.Mutex
+				dialer := mqtt.DialerFunc(func(ctx context.Context) (*mqtt.BaseClient, error) {
+					dmu.Lock()
+					dials++
+					n := dials
+					dmu.Unlock()
+					if n > 1 {
+						<-ctx.Done()
+						return nil, ctx.Err()
+					}
+					return &mqtt.BaseClient{Transport: tr, ConnState: func(s mqtt.ConnState, err error) {
+						if s == mqtt.StateActive {
+							ccancel()
+						}
+					}}, nil
+				})
+				cli, err := mqtt.NewReconnectClient(dialer, mqtt.WithReconnectWait(time.Millisecond, 2*time.Millisecond))
+				if err != nil {
+					bad("C09", "setup", "NewReconnectClient: %v", err)
+					return r
+				}
+				connRet := make(chan error, 1)
+				go func() { _, err := cli.Connect(cctx, "cid"); connRet <- err }()
+				select {
+				case <-connRet: // nil or the context's error: both are acceptable at this instant
+				case <-time.After(3 * time.Second):
+					bad("C11", "call-never-returned", "ReconnectClient.Connect did not return although its context was cancelled")
+				}
+				time.Sleep(5 * time.Millisecond)
+				dctx, dcancel := context.WithTimeout(context.Background(), 1500*time.Millisecond)
+				derr := make(chan error, 1)
+				go func() { derr <- cli.Disconnect(dctx) }()
+				select {
+				case e := <-derr:
+					if e != nil {
+						bad("C11", "disconnect-did-not-return", "Disconnect after a Connect whose context ended as the CONNACK was accepted returned %v (the connection loop no longer reacts)", e)
+					}
+				case <-time.After(3 * time.Second):
+					bad("C11", "call-never-returned", "Disconnect did not return")
+				}
+				dcancel()
+				tr.Close()
 			case "wlate":
 				// a Transport.Write that looks at its argument late (a slow link): while the PUBREL of an outbound QoS 2 publish
 				// is inside Write, an inbound QoS 1 PUBLISH has to be acknowledged. Every packet must reach the wire as it was
